@@ -314,6 +314,10 @@ Curves:
 	}
 
 	if hs.checkForResumption() {
+		if hs.inappropriateFallback() {
+			c.sendAlert(alertInappropriateFallback)
+			return false, errors.New("tls: client using inppropriate protocol fallback")
+		}
 		return true, nil
 	}
 
@@ -375,20 +379,26 @@ Curves:
 			hs.clientHello.cipherSuites)
 	}
 
-	// See https://tools.ietf.org/html/draft-ietf-tls-downgrade-scsv-00.
-	for _, id := range hs.clientHello.cipherSuites {
-		if id == TLS_FALLBACK_SCSV {
-			// The client is doing a fallback connection.
-			if hs.clientHello.vers < c.config.MaxVersion {
-				c.sendAlert(alertInappropriateFallback)
-				return false, errors.New("tls: client using inppropriate protocol fallback")
-			}
-			break
-		}
+	if hs.inappropriateFallback() {
+		c.sendAlert(alertInappropriateFallback)
+		return false, errors.New("tls: client using inppropriate protocol fallback")
 	}
 
 	hs.validateHttp2Accepted()
 	return false, nil
+}
+
+// inappropriateFallback reports whether the client signals a fallback connection
+// (TLS_FALLBACK_SCSV, RFC 7507) although it offers a lower protocol version than
+// the highest one this server supports.
+func (hs *serverHandshakeState) inappropriateFallback() bool {
+	for _, id := range hs.clientHello.cipherSuites {
+		if id == TLS_FALLBACK_SCSV {
+			// The client is doing a fallback connection.
+			return hs.clientHello.vers < hs.c.config.maxVersion()
+		}
+	}
+	return false
 }
 
 // Equivalent cipher suite negotiation
